@@ -91,7 +91,38 @@ Qed.
 
 Definition cubic (a b c d s : R) : R := a + b * s + c * (s * s) + d * (s * s * s).
 
+Definition two_cubic_value (x cc a1 b1 c1 d1 a2 b2 c2 d2 : R) : R :=
+  ((ylos x (cc - 1) - 0) * 0
+   + ((ylos x cc - ylos x (cc - 1)) * a1 + b1 * (Gh x (ylos x cc) - Gh x (ylos x (cc - 1)))
+      + c1 * (Kh x (ylos x cc) - Kh x (ylos x (cc - 1))) + d1 * (Ch x (ylos x cc) - Ch x (ylos x (cc - 1)))))
+  + ((ylos x (cc + 1) - ylos x cc) * a2 + b2 * (Gh x (ylos x (cc + 1)) - Gh x (ylos x cc))
+     + c2 * (Kh x (ylos x (cc + 1)) - Kh x (ylos x cc)) + d2 * (Ch x (ylos x (cc + 1)) - Ch x (ylos x cc))).
+
 (* a function made of two cubic pieces on [c-1,c] and [c,c+1], zero outside *)
+Lemma two_cubic_is_RInt (f : R -> R) cc x a1 b1 c1 d1 a2 b2 c2 d2 : 0 <= x -> 0 <= cc ->
+  (forall s, s <= cc - 1 -> f s = 0) ->
+  (forall s, cc - 1 <= s <= cc -> f s = cubic a1 b1 c1 d1 s) ->
+  (forall s, cc <= s <= cc + 1 -> f s = cubic a2 b2 c2 d2 s) ->
+  is_RInt (fun y => f (sqrt (x * x + y * y))) 0 (ylos x (cc + 1)) (two_cubic_value x cc a1 b1 c1 d1 a2 b2 c2 d2).
+Proof.
+  intros Hx Hc Hz Hlo Hup. unfold two_cubic_value.
+  pose proof (ylos_nonneg x (cc - 1)) as H0.
+  pose proof (ylos_mono x (cc - 1) cc Hx ltac:(lra)) as H1.
+  pose proof (ylos_mono x cc (cc + 1) Hx ltac:(lra)) as H2.
+  apply (is_RInt_Chasles_R _ 0 (ylos x cc) (ylos x (cc + 1))).
+  apply (is_RInt_Chasles_R _ 0 (ylos x (cc - 1)) (ylos x cc)).
+  - apply is_RInt_const_ext; [lra|]. intros y Hy. apply Hz.
+    assert (sqrt (x * x + y * y) < cc - 1) by (apply hyp_lt_ylos; lra). lra.
+  - apply is_RInt_cubic_piece; try lra. intros y Hy. rewrite Hlo; [reflexivity|].
+    assert (sqrt (x * x + y * y) < cc) by (apply hyp_lt_ylos; lra).
+    assert (Rmax (cc - 1) x < sqrt (x * x + y * y)) by (apply hyp_gt_ylos; lra).
+    pose proof (Rmax_l (cc - 1) x). lra.
+  - apply is_RInt_cubic_piece; try lra. intros y Hy. rewrite Hup; [reflexivity|].
+    assert (sqrt (x * x + y * y) < cc + 1) by (apply hyp_lt_ylos; lra).
+    assert (Rmax cc x < sqrt (x * x + y * y)) by (apply hyp_gt_ylos; lra).
+    pose proof (Rmax_l cc x). lra.
+Qed.
+
 Lemma Abel_two_cubic (f : R -> R) cc x a1 b1 c1 d1 a2 b2 c2 d2 : 0 <= x -> 0 <= cc ->
   (forall s, s <= cc - 1 -> f s = 0) ->
   (forall s, cc - 1 <= s <= cc -> f s = cubic a1 b1 c1 d1 s) ->
@@ -101,28 +132,8 @@ Lemma Abel_two_cubic (f : R -> R) cc x a1 b1 c1 d1 a2 b2 c2 d2 : 0 <= x -> 0 <= 
 Proof.
   intros Hx Hc Hz Hlo Hup. unfold Abel. rewrite abel_upper by lra.
   rewrite <- !Pt3_eq by auto.
-  pose proof (ylos_nonneg x (cc - 1)) as H0.
-  pose proof (ylos_mono x (cc - 1) cc Hx ltac:(lra)) as H1.
-  pose proof (ylos_mono x cc (cc + 1) Hx ltac:(lra)) as H2.
-  assert (HI : is_RInt (fun y => f (sqrt (x * x + y * y))) 0 (ylos x (cc + 1))
-     (((ylos x (cc - 1) - 0) * 0
-       + ((ylos x cc - ylos x (cc - 1)) * a1 + b1 * (Gh x (ylos x cc) - Gh x (ylos x (cc - 1)))
-          + c1 * (Kh x (ylos x cc) - Kh x (ylos x (cc - 1))) + d1 * (Ch x (ylos x cc) - Ch x (ylos x (cc - 1)))))
-      + ((ylos x (cc + 1) - ylos x cc) * a2 + b2 * (Gh x (ylos x (cc + 1)) - Gh x (ylos x cc))
-         + c2 * (Kh x (ylos x (cc + 1)) - Kh x (ylos x cc)) + d2 * (Ch x (ylos x (cc + 1)) - Ch x (ylos x cc))))).
-  { apply (is_RInt_Chasles_R _ 0 (ylos x cc) (ylos x (cc + 1))).
-    apply (is_RInt_Chasles_R _ 0 (ylos x (cc - 1)) (ylos x cc)).
-    - apply is_RInt_const_ext; [lra|]. intros y Hy. apply Hz.
-      assert (sqrt (x * x + y * y) < cc - 1) by (apply hyp_lt_ylos; lra). lra.
-    - apply is_RInt_cubic_piece; try lra. intros y Hy. rewrite Hlo; [reflexivity|].
-      assert (sqrt (x * x + y * y) < cc) by (apply hyp_lt_ylos; lra).
-      assert (Rmax (cc - 1) x < sqrt (x * x + y * y)) by (apply hyp_gt_ylos; lra).
-      pose proof (Rmax_l (cc - 1) x). lra.
-    - apply is_RInt_cubic_piece; try lra. intros y Hy. rewrite Hup; [reflexivity|].
-      assert (sqrt (x * x + y * y) < cc + 1) by (apply hyp_lt_ylos; lra).
-      assert (Rmax cc x < sqrt (x * x + y * y)) by (apply hyp_gt_ylos; lra).
-      pose proof (Rmax_l cc x). lra. }
-  rewrite (is_RInt_unique _ _ _ _ HI). ring.
+  rewrite (is_RInt_unique _ _ _ _ (two_cubic_is_RInt f cc x a1 b1 c1 d1 a2 b2 c2 d2 Hx Hc Hz Hlo Hup)).
+  unfold two_cubic_value. ring.
 Qed.
 
 (* the Hermite pieces as cubic polynomials of the radius *)
@@ -211,3 +222,19 @@ Proof.
   - subst i. zconds; z2r; pt3_close j.
   - zconds; z2r; pt3_close j.
 Qed.
+
+(* is_RInt forms (for linear combinations, proofs/ExactOnSpan.v) *)
+Lemma herm_p_is_RInt x c : 0 <= x -> 0 <= c -> exists V,
+  is_RInt (fun y => herm_p c (sqrt (x * x + y * y))) 0 (ylos x (c + 1)) V.
+Proof.
+  intros Hx Hc. eexists. apply (two_cubic_is_RInt (herm_p c) c x _ _ _ _ _ _ _ _ Hx Hc (herm_p_below c) (herm_p_lo c) (herm_p_up c)).
+Qed.
+Lemma herm_q_is_RInt x c : 0 <= x -> 0 <= c -> exists V,
+  is_RInt (fun y => herm_q c (sqrt (x * x + y * y))) 0 (ylos x (c + 1)) V.
+Proof.
+  intros Hx Hc. eexists. apply (two_cubic_is_RInt (herm_q c) c x _ _ _ _ _ _ _ _ Hx Hc (herm_q_below c) (herm_q_lo c) (herm_q_up c)).
+Qed.
+Lemma herm_p_beyond c s : c + 1 <= s -> herm_p c s = 0.
+Proof. intros; unfold herm_p. rewrite Rabs_pos_eq by lra. rewrite pos_nonpos by lra. ring. Qed.
+Lemma herm_q_beyond c s : c + 1 <= s -> herm_q c s = 0.
+Proof. intros; unfold herm_q. rewrite Rabs_pos_eq by lra. rewrite pos_nonpos by lra. ring. Qed.
